@@ -107,6 +107,11 @@ def main(tier: str) -> int:
                     stmts.append(st + ((g,) if c["PType"] == 3 else ()))
             if not stmts:
                 continue
+            if bi % 3 == 0:
+                XS = "http://www.w3.org/2001/XMLSchema#string"
+                s0 = stmts[0]
+                pair = [s0[:2] + (("lit", "Berlin", "", XS),) + s0[3:], s0[:2] + (("lit", "Berlin", "", ""),) + s0[3:], s0[:2] + (("lit", "Berlin", "", XS),) + s0[3:]]
+                stmts = stmts[:1] + pair + stmts[1:]
             sclass = {1: "triple", 2: "quad", 3: "graph"}[c["PType"]]
             outs = {}
             entry = rnd.choice(["stream_frames", "flat_to_file"]) if c["PType"] != 3 else "stream_frames"
